@@ -372,6 +372,40 @@ def battery_multiscalar_sizes(seed, sizes, which=("P.MultiScalarMult", "P.VarTim
     return None
 
 
+def battery_history_sizes(seed, consts):
+    """'identical output no matter what was computed before' for term counts above the symbolic bound: in ONE process each
+    multi-scalar routine is called with term counts that go up and down around the constants the unexplored code compares a
+    length with (a larger call before a smaller one, the same size twice); every result is compared with the stateless oracle"""
+    rng = random.Random(seed)
+    pts = bank(rng, 8)
+    ops, meta = [], []
+    seqs = []
+    for c in (consts or [8, 16, 32, 64])[:4]:
+        seqs.append([n for n in (c + 1, 2 * c + 1, c + 1, c, 2 * c + 5, c + 3, c - 1, c + 3, 2, c) if 0 <= n <= 300])
+    for op in ("P.VarTimeMultiScalarMult", "P.MultiScalarMult"):
+        for seq in seqs:
+            for n in seq:
+                ks = [rng.choice([1, 2, L - 1, rng.randrange(L), rng.randrange(L)]) for _ in range(n)]
+                qs = [pts[rng.randrange(len(pts))] for _ in range(n)]
+                want = (0, 1)
+                init = {"v": "pt:zero"}
+                for j, (k_, q) in enumerate(zip(ks, qs)):
+                    want = ref.ed_add(want, ref.ed_mul(k_, q))
+                    init["k%d" % j] = scalar_words(k_)
+                    init["q%d" % j] = mk_point(q, rng)
+                ops.append({"op": op, "args": ["v", "|".join("k%d" % j for j in range(n)), "|".join("q%d" % j for j in range(n))], "init": init})
+                meta.append((op, n, want, tuple(seq)))
+    res = native.run_ops("", ops)
+    for (op, n, want, seq), o, r in zip(meta, ops, res):
+        if "panic" in r:
+            return dict(what="%s with %d terms (in the call sequence with term counts %s) panics: %s" % (op, n, list(seq), r["panic"]), op=op, args=o["args"], init=o["init"])
+        got = affine_of(r["slots"]["v"])
+        if got != want:
+            return dict(what="%s with %d terms, called in one process after calls with term counts %s: result %s, expected %s (the result depends on earlier calls)" % (op, n, list(seq), got, want),
+                        op=op, args=o["args"], init=o["init"])
+    return None
+
+
 def battery_history_variants(seed):
     """'identical output no matter what was computed before', aimed at value-keyed caches: consecutive calls in one process
     whose point arguments are related - the same raw (X, Y) limbs with (Z, T) negated (a different valid point, P + (0,-1)),
